@@ -507,7 +507,9 @@ func (sc *modScanner) call(c *ssa.CallCommon, depth int) {
 	default:
 		// dynamic function value: could be a known closure; conservatively scan all closures created in this unit
 		for _, cl := range x.closures {
-			sc.fn(cl.Fn, depth)
+			if cl != nil {
+				sc.fn(cl.Fn, depth)
+			}
 		}
 		sc.ghostClass("func:" + (&frame{}).funcValClass(c.Value))
 	}
